@@ -17,6 +17,24 @@ def main():
             cont = {k: float.fromhex(v) for k, v in c["contents"].items()}
             t = float.fromhex(c["t"])
             inv = cls(cont, c["unit"])
+            # an earlier history on the SAME object: calculations, then in-place changes
+            for op in c.get("pre", []):
+                if op[0] == "decay":
+                    inv.decay(float.fromhex(op[1]), "s")
+                elif op[0] == "cumulative_decays":
+                    inv.cumulative_decays(float.fromhex(op[1]), "s")
+                elif op[0] == "series":
+                    inv.decay_time_series(float.fromhex(op[1]), "s", "linear", "num", npoints=2)
+                elif op[0] == "fractions":
+                    inv.mole_fractions()
+                elif op[0] == "add":
+                    inv.add({k: float.fromhex(v) for k, v in op[1].items()}, "num")
+                elif op[0] == "subtract":
+                    inv.subtract({k: float.fromhex(v) for k, v in op[1].items()}, "num")
+                elif op[0] == "remove":
+                    inv.remove(op[1])
+                elif op[0] == "remove_list":
+                    inv.remove(list(op[1]))
             if hp:
                 r["n0"] = {}
                 for k, v in inv.contents.items():
